@@ -61,7 +61,8 @@ theorem okImp_nullCheck {len idx : Nat} : OkImp (nullCheck Fixes.all len idx) (i
   · cases h
   · omega
 
-theorem okImp_codecRead {v : Option Bits} {vals : List Int} {idx : Nat} : OkImp (codecRead Fixes.all v vals idx) (idx < vals.length) := by
+theorem okImp_codecRead {fmt : Int → R DVal} {v : Option Bits} {vals : List Int} {idx : Nat} :
+    OkImp (codecRead Fixes.all fmt v vals idx) (idx < vals.length) := by
   unfold codecRead
   exact OkImp.bind_left (okImp_getRequired okImp_primGet)
 
